@@ -114,7 +114,7 @@ def coq_project_files():
     for d in ("theories", "gen", "props"):
         base = os.path.join(COQ, d)
         for root, _dirs, files in os.walk(base):
-            if os.path.basename(root) == "cases":
+            if os.path.basename(root) in ("cases", "ob") or os.sep + "ob" + os.sep in root + os.sep:
                 continue
             for fn in sorted(files):
                 if fn.endswith(".v"):
@@ -154,7 +154,7 @@ def parse_assumptions(output):
         if b.startswith("Closed under the global context"):
             res.append((True, set()))
         elif b.startswith("Axioms:"):
-            names = set(re.findall(r"^([A-Za-z_][\w.']*)\s*:", b[len("Axioms:"):], flags=re.M))
+            names = set(re.findall(r"^([A-Za-z_][\w.']*)\s*:", b[len("Axioms:"):], flags=re.M)) - {"Warning", "File", "Error"}
             res.append((False, names))
     return res
 
